@@ -229,7 +229,7 @@ CHECKS = {
     ),
     "C14": dict(
         level="exploration",
-        required_probes=['multi_pass_rewind', 'frame_boundary_on_time_mark', 'multi_frame_run_checked', 'cutoff_reached', 'lm_vs_projdata_compared', 'several_cache_files', 'cache_files_reused', 'cache_write_error_reported_by_set_up', 'source_ended_inside_run', 'reuse_cutoff_request', 'reuse_frame_request', 'lm_second_set_up_checked', 'file_multi_pass', 'file_ends_inside_a_record', 'file_histogram_nonempty', 'other_tag_words_in_file', 'frames_from_fdef_file'],
+        required_probes=['multi_pass_rewind', 'frame_boundary_on_time_mark', 'multi_frame_run_checked', 'cutoff_reached', 'lm_vs_projdata_compared', 'several_cache_files', 'cache_files_reused', 'cache_write_error_reported_by_set_up', 'source_ended_inside_run', 'reuse_cutoff_request', 'reuse_frame_request', 'reuse_shared_listmode_object', 'lm_second_set_up_checked', 'file_multi_pass', 'file_ends_inside_a_record', 'file_histogram_nonempty', 'other_tag_words_in_file', 'frames_from_fdef_file'],
         parts=[dict(harness="chk_C14", variant="seq", src="checks/chk_C14.cpp",
                     runs=dict(quick=6000, thorough=300000), wall_cap=dict(quick=110, thorough=2400)),
                dict(harness="chk_C14", variant="omp", src="checks/chk_C14.cpp",
